@@ -95,10 +95,10 @@ def oracle_c02(case, impl_out):
     for k, c in enumerate(comps):
         call = {"groups": c["groups"], "infos": c["infos"]}
         p = passes[k] if k < len(passes) else {}
-        if c.get("out_groups") is not None and c.get("out_infos") is not None and c.get("out_scores") is not None:
-            res = {"groups": c["out_groups"], "infos": c["out_infos"], "scores": c["out_scores"]}  # what do_competition returned
-        elif "ranked_groups" in p:
+        if "ranked_groups" in p:
             res = {"groups": p["ranked_groups"], "infos": p["ranked_infos"], "scores": p["ranked_scores"]}
+        elif c.get("out_groups") is not None and c.get("out_infos") is not None and c.get("out_scores") is not None:
+            res = {"groups": c["out_groups"], "infos": c["out_infos"], "scores": c["out_scores"]}  # no report observed: what do_competition returned
         elif impl_out.get("err") == "no_ranked_groups" and k == len(comps) - 1:
             res = {"err": "no_ranked_groups"}
         else:
@@ -230,6 +230,8 @@ class PipelineMixin2(pl.PipelineMixin):
 # ------------------------------------------------------------------------------------------------
 def table_statement_c19(case, name, text):
     """identifiers under the run's rule and the three annotation columns of every written row"""
+    if case.get("flags", {}).get("gene_level") and case.get("fasta") and gene_level_decision(case)[0] is None:
+        return None  # exactly half of the records carry a gene name: the property text does not decide the identifier rule
     t = cm.shipped()[name]
     hdr, rows = cm.read_table(text)
     if hdr[len(cm.BASE_HEADERS):] != cm.ANN_HEADERS:
@@ -421,6 +423,9 @@ def gene_level_decision(case):
     if not table:
         return None, 0, 0
     with_gene = sum(1 for g in table.values() if g)
+    if 2 * with_gene == len(table):
+        # exactly half: "unless most records lack one" does not decide this case (the code falls back); not judged
+        return None, with_gene, len(table)
     return not (2 * with_gene > len(table)), with_gene, len(table)
 
 
